@@ -454,6 +454,26 @@ def nondet_confined(repo, fi, call, tag):
       return True, ''
     if isinstance(p, ast.BinOp) and isinstance(p.op, (ast.BitOr,)):
       return True, ''
+    if isinstance(p, ast.Assign) and len(p.targets) == 1 and isinstance(p.targets[0], ast.Name) \
+        and p.value is call:
+      # key = id(t): the local is identity bookkeeping when every read of it is
+      name = p.targets[0].id
+      others = [x for x in walk_local(fi.node) if isinstance(x, ast.Assign) and x is not p and
+                any(isinstance(y, ast.Name) and y.id == name and isinstance(y.ctx, ast.Store) for t_ in x.targets for y in ast.walk(t_))]
+      reads = [x for x in walk_local(fi.node) if isinstance(x, ast.Name) and x.id == name and
+               isinstance(x.ctx, ast.Load)]
+      def confined(x):
+        q = par.get(x)
+        while isinstance(q, (ast.Tuple, ast.List, ast.Set)):
+          q = par.get(q)
+        if isinstance(q, (ast.Compare, ast.Subscript)):
+          return True
+        if isinstance(q, ast.Call) and call_tail(q) in ('set', 'add', 'frozenset', 'discard', 'remove'):
+          return True
+        return isinstance(q, ast.BinOp) and isinstance(q.op, ast.BitOr)
+      if not others and reads and all(confined(x) for x in reads):
+        return True, ''
+      return False, 'object identity / hash is kept in `%s` and read outside keys / membership' % name
     return False, 'object identity / hash flows into %s' % type(p).__name__
   if 'datetime' in tag:
     # timers: value only subtracted and printed
